@@ -134,15 +134,48 @@ class ChunkModel:
                 self.rep.fn(hb.key)
                 fp = format_param(hb)
                 entry = entry_with_format(self.ctx, hb, fp, None, vi) if fp is not None else None
-                ex = grammar.emitted(env, hb.key, entry=entry)
+                ex = grammar.Extractor(env, hb.key, "w", entry, None)
+                ex.probe = self._field_dom_probe(hb)
+                ex.run()
                 alts = []
                 for p in grammar.ok_paths(ex):
                     toks = [t for t in p if t[0] in WIDTHS or t[0] == "bytes" or t[0] == "unmodelled"]
                     cond = [t for t in sig(p) if t[0] == "when" and not t[1].startswith("discr(load(*load(format")]
+                    cond += [w for t in p if t[0] == "probe" for w in t[1] if w not in cond]
                     alts.append((tuple(toks), tuple(cond)))
                 uniq = sorted(set(alts), key=repr)
                 layout.append((h.split("::")[-1], uniq))
             self.w_layout[vi] = layout
+
+    def _field_dom_probe(self, body, through_self=None):
+        """what a path's final state knows about the value the header's 24-bit timestamp field had on entry, as comparison
+        decisions: the same whether the test was written in place, through min/max or in a predicate helper"""
+        from . import facts
+        prog = self.prog
+        HDR = "chunk_io::chunk_header::ChunkHeader"
+        pr = facts.field_proj(prog, HDR, ["timestamp_field"])
+        hk, _ = facts.adt_by_pretty(prog, HDR)
+
+        def probe(it, S):
+            out = []
+            if pr is None:
+                return ()
+            cands = []
+            if through_self is not None:
+                cands.append(("load(*load(self).%s.timestamp_field)" % through_self[2], State().read((("P", State().read((it.L(1), ()))), (through_self,) + pr))))
+            else:
+                for i in range(1, body.arg_count + 1):
+                    t = body.locals[i]["t"]
+                    if t.get("k") == "ref" and t["to"].get("adt") == hk:
+                        cands.append(("load(*load(%s).timestamp_field)" % (body.locals[i].get("name") or "_%d" % i), State().read((("P", State().read((it.L(i), ()))), pr))))
+            for name, v in cands:
+                d = S.dom(v)
+                if d.lo > 0:
+                    out.append(("when", "(%s Ge %d)" % (name, d.lo), "1"))
+                if d.hi < 4294967295:
+                    out.append(("when", "(%s Le %d)" % (name, d.hi), "1"))
+            return tuple(out)
+        return probe
 
     def _takes_sink(self, pretty):
         b = body_by_pretty(self.prog, pretty)
@@ -242,7 +275,8 @@ class ChunkModel:
                 sb = prog.bodies[callee_of[s]]
                 self.rep.fn(sb.key)
                 entry = entry_with_format(ctx, sb, None, fmt_field, vi)
-                tr = grammar.trace(env, sb.key, "r", entry=entry)
+                hdr_field = next((("f", i, f["name"]) for i, f in enumerate(adt["variants"][0]["fields"]) if f["name"] == "current_header"), None)
+                tr = grammar.trace(env, sb.key, "r", entry=entry, probe=self._field_dom_probe(sb, hdr_field) if hdr_field else None)
                 succ = []
                 for p in grammar.ok_paths(tr):
                     sp = sig(p)
@@ -257,6 +291,7 @@ class ChunkModel:
                     first_take = next((i for i, t in enumerate(sp) if t[0] in ("take", "read")), len(sp))
                     # decisions that govern whether / how much is consumed: those before the first consumption
                     cond = tuple(t for t in sp[:first_take] if t[0] == "when" and "current_header_format" not in t[1] and "buffer.len" not in t[1])
+                    cond += tuple(w for t in sp if t[0] == "probe" for w in t[1] if w not in cond)
                     fin = [t for t in sp if t[0] == "final"]
                     shapes.add((takes, cond, fin[-1][1] if fin else ()))
                 lay.append((sb.pretty.split("::")[-1], sorted(shapes, key=repr)))
